@@ -2221,26 +2221,6 @@ func execSubscribe(ops []string, st *Stats) ([]string, []string) {
 				return subListStr(subCanonical(raw))
 			case w[0] == "close" && len(w) == 1:
 				s.barrier()
-				leaked := false
-				for _, r := range s.subs {
-					leaked = leaked || !r.ok
-				}
-				if leaked {
-					// A Subscribe call that failed (invalid IgnoreBytes) has left its subscriber
-					// registered; cleanSubscribers waits for a Subscribe loop that does not exist.
-					closed := make(chan struct{})
-					db := s.db
-					go func() { _ = db.Close(); close(closed) }()
-					s.db = nil
-					select {
-					case <-closed:
-						return "closed-despite-leak"
-					case <-time.After(time.Second):
-						st.Inc("close:hang")
-						fail("[F24:subscribe-error-leaks-subscriber] DB.Close does not return: a failed Subscribe left a subscriber behind whose closer is never released")
-						return "hang"
-					}
-				}
 				var live []*subRec
 				for _, r := range s.subs {
 					if r.ok && !r.gone {
@@ -2264,6 +2244,18 @@ func execSubscribe(ops []string, st *Stats) ([]string, []string) {
 						return false
 					}
 				})
+				select {
+				case <-closed:
+				default:
+					// (finding F24, fixed: a failed Subscribe used to leave a subscriber behind whose
+					// closer was never released, and cleanSubscribers waited for it forever)
+					fail("[close-returns] DB.Close did not return")
+					for _, r := range live {
+						r.release()
+					}
+					s.db = nil
+					return "hang"
+				}
 				for _, r := range live {
 					r.release()
 				}
@@ -2323,7 +2315,7 @@ func genSubscribe(rng *rand.Rand, n int, st *Stats) []string {
 	for c := 0; c < n; c++ {
 		ops = append(ops, "reset")
 		nsubs := 1
-		badSession := rng.Intn(100) == 0
+		badSession := rng.Intn(8) == 0
 		for k := 0; k < 6+rng.Intn(16); k++ {
 			switch r := rng.Intn(20); {
 			case r < 5:
@@ -2336,7 +2328,6 @@ func genSubscribe(rng *rand.Rand, n int, st *Stats) []string {
 					p := genTrieKey(rng, 3)
 					ig := trieIgnoreValid[rng.Intn(len(trieIgnoreValid))]
 					if badSession && rng.Intn(4) == 0 {
-						// rare: DB.Close hangs afterwards (finding F24), the session costs a second
 						ig = trieIgnoreBad[rng.Intn(len(trieIgnoreBad))]
 						st.Inc("sub:bad-ignore")
 					}
